@@ -2,7 +2,7 @@
    Statements only.  Model: Server/ProxyCore.v (proxy) composed with
    Agent/System.v (agent workers + arbitrary backend). *)
 From Coq Require Import ZArith List Bool Lia String.
-From IP Require Import Gen.SrcFacts_Server Gen.SrcFacts_Agent Server.ProxyCore Proofs.ProxyCoreProofs Agent.System Proofs.SystemProofs.
+From IP Require Import Gen.SrcFacts_Server Gen.SrcFacts_Agent Server.Relay Server.RelayCheck Proofs.RelayProofs Server.ProxyCore Proofs.ProxyCoreProofs Agent.System Proofs.SystemProofs.
 Import ListNotations.
 Open Scope Z_scope.
 
@@ -35,6 +35,34 @@ Theorem C01_trailers_after_complete_relay :
   frontendBeforeTrailers = ["_, err := io.Copy(w, resp.Body)"; "resp.Body.Close()"; "if err != nil { ...; return }"]%string.
 Proof. reflexivity. Qed.
 Print Assumptions C01_trailers_after_complete_relay.
+
+(* the relay of one response, as two goroutines joined by a pipe (Server/Relay.v), with the guard the source has
+   (Server/RelayCheck.relay_guarded: the statement right before the loop over resp.Trailer): in no reachable state of any schedule - the client going
+   away at any moment, the upload breaking off or completing, in any order - is the client's handler at the trailer map
+   while the upload handler's last Read is still to come or is storing into it *)
+Theorem C01_relay_race_free : forall ls s, rrun relay_guarded r_init ls = Some s -> racing s = false.
+Proof. exact relay_race_free. Qed.
+Print Assumptions C01_relay_race_free.
+
+(* ... and a client that was served to the end found the trailers in the map exactly when the upload had been read to
+   its end, which is exactly when the agent's upload was answered 200 *)
+Theorem C01_relay_trailers_iff_acknowledged : forall ls s t,
+  rrun relay_guarded r_init ls = Some s -> client_outcome s = OComplete t ->
+  po s = PClosed /\ t = complete s /\ post_ok s = Some t.
+Proof. exact relay_trailers_iff_acknowledged. Qed.
+Print Assumptions C01_relay_trailers_iff_acknowledged.
+
+(* sharpness: without the guard (the source before fix 0e606d2) the racing state is reached when the client goes away
+   and the end of the upload arrives afterwards *)
+Theorem C01_relay_unguarded_races : exists s, rrun false r_init [Relay.Hand; Chunk; ClientFail; LastRead] = Some s /\ racing s = true.
+Proof. exact relay_unguarded_races. Qed.
+Print Assumptions C01_relay_unguarded_races.
+
+(* the premises are met: a complete exchange, and one in which the client goes away and the upload completes *)
+Example C01_relay_complete_run :
+  (exists s, rrun relay_guarded r_init [Relay.Hand; Chunk; Chunk; LastRead; Stored; WriterClose; ClientEOF; TrailersRead] = Some s /\ client_outcome s = OComplete true /\ post_ok s = Some true) /\
+  (exists s, rrun relay_guarded r_init [Relay.Hand; Chunk; ClientFail; LastRead; Stored; WriterClose] = Some s /\ client_outcome s = OClientGone /\ post_ok s = Some true).
+Proof. split; eexists; (split; [vm_compute; reflexivity|split; reflexivity]). Qed.
 
 (* ... and that draw comes from a random generator seeded from the clock when the proxy is created, taken under the lock
    and hashed: distinct within one proxy life and, with overwhelming probability, across the lives of a restarted proxy.
